@@ -317,9 +317,16 @@ def judgeOps : List String → List String → Nat → JState → String
           match f.head?, f with
           | some "u", [_, _, k, mu] =>
             match parseMut k mu with
-            | some m =>
+            | some m0 =>
               let v := st.views.getD r []
               let ctx := getSeen v k
+              -- an LWW write is recorded with its effective timestamp (Spec.C39.lwEffective), or as refused
+              let m : Mut := match m0 with
+                | .lwSet x ts =>
+                  match lwEffective (seenUpds st.hist k ctx) r ts with
+                  | some ets => .lwSet x ets
+                  | none => .lwRefused
+                | other => other
               let u : Upd := ⟨st.hist.length, r, k, m, ctx⟩
               let after := union ctx [u.id]
               let hist := st.hist ++ [u]
